@@ -277,6 +277,30 @@ def run_impl(driver, case):
                     break
         except Exception as ex:
             out["viewinplace"] = "raises %s" % type(ex).__name__
+    # TensorFlow in GRAPH mode (tf.function with an axis whose extent is unknown when the function is traced - a dataset pipeline):
+    # masked (1, 3) <op> plain (5, 3) broadcasts values AND validity to (5, 3); what the static shapes say at trace time
+    # ([None, 3] on both sides) decides nothing.  Run once per process.
+    if getattr(driver, "name", "") == "tf" and not getattr(driver, "_graph_probe_done", False):
+        driver._graph_probe_done = True
+        try:
+            tf = driver.tf
+            sig = [tf.TensorSpec([None, 3], tf.float32), tf.TensorSpec([None, 3], tf.bool), tf.TensorSpec([None, 3], tf.float32)]
+            bad = None
+            for opname in ("__add__", "__mul__", "__sub__", "__truediv__"):
+                @tf.function(input_signature=sig)
+                def f(t, m, p, _op=opname):
+                    r = getattr(driver.MT(t, m), _op)(p)
+                    return r.tensor, r.mask
+                t = tf.constant([[1.0, 2.0, 3.0]])
+                m = tf.constant([[True, False, True]])
+                pl = tf.constant(np.arange(15, dtype=np.float32).reshape(5, 3) + 1.0)
+                rt, rm = f(t, m, pl)
+                if tuple(rt.shape) != (5, 3) or tuple(rm.shape) != (5, 3) or not np.array_equal(rm.numpy(), np.tile([[True, False, True]], (5, 1))):
+                    bad = "%s: value shape %s, validity shape %s" % (opname, tuple(rt.shape), tuple(rm.shape))
+                    break
+            out["graphshape"] = bad
+        except Exception as ex:
+            out["graphshape"] = "raises %s" % type(ex).__name__
     # TensorFlow statistics in float32 on data whose mean is hundreds of times its spread (pixel coordinates): variance and
     # standard deviation of the valid elements, against a binary64 two-pass reference (a textbook-correct but cancellation-prone
     # formula is off by percents here, float32 rounding of a sound one by 1e-4 at most)
